@@ -577,4 +577,5 @@ func c07Spaces(c *fw.Ctx) {
 	c07DirectiveSpace(c)
 	c07ReadFaultSpace(c)
 	c07ErrorPositionSpace(c)
+	c07DryDirectiveSpace(c)
 }
